@@ -1,0 +1,43 @@
+// +build verif
+
+package ldb
+
+import (
+	"github.com/syndtr/goleveldb/leveldb"
+	"github.com/syndtr/goleveldb/leveldb/filter"
+	"github.com/syndtr/goleveldb/leveldb/opt"
+	"github.com/syndtr/goleveldb/leveldb/storage"
+
+	"massnet.org/mass-wallet/masswallet/db"
+)
+
+// OpenWithStorage opens (or creates) a wallet database on a caller supplied
+// goleveldb storage instead of a directory. It exists only with the "verif"
+// build tag and lets a simulator own the disk. Options are those of
+// newLevelDB; writeBuffer/blockSize override the defaults when positive.
+func OpenWithStorage(stor storage.Storage, create bool, writeBuffer, blockSize int) (db.DB, error) {
+	opts := &opt.Options{
+		Filter:             filter.NewBloomFilter(10),
+		WriteBuffer:        128 * opt.MiB,
+		BlockSize:          32 * opt.KiB,
+		BlockCacheCapacity: 32 * opt.MiB,
+		BlockCacher:        opt.DefaultBlockCacher,
+		OpenFilesCacher:    opt.DefaultOpenFilesCacher,
+		ErrorIfMissing:     !create,
+		ErrorIfExist:       create,
+	}
+	if writeBuffer > 0 {
+		opts.WriteBuffer = writeBuffer
+	}
+	if blockSize > 0 {
+		opts.BlockSize = blockSize
+	}
+	ldb, err := leveldb.Open(stor, opts)
+	if err != nil {
+		if create {
+			return nil, db.ErrCreateDBFailed
+		}
+		return nil, db.ErrOpenDBFailed
+	}
+	return &LevelDB{ldb: ldb}, nil
+}
